@@ -5,8 +5,10 @@ CONSTANTS NP = 3 NA = 3 NS = 2 V6 = {3} BlackAddr = {} BlackMid = {} IpCap = 2 I
 VIEW NoRetOp
 INVARIANT TypeOK
 INVARIANT LookupsAgree
+INVARIANT HistoryAgrees
 INVARIANT BlacklistedNeverVerified
 INVARIANT SnapshotRoundTrip
 PROPERTY QueriesPure
 PROPERTY RemovedIsGone
+PROPERTY RemovedIsClean
 PROPERTY ReAddWorks
